@@ -11,8 +11,8 @@
    Covered here: the codec routines of C11 (bit-packed runs 0 < w <= 24, RLE runs, varints, delta miniblocks 0 < w <= 28).  The
    thrift serialiser (C10) and the list assembler (C15) parts are in their own properties' files. *)
 From Coq Require Import NArith ZArith Arith List Bool.
-From Pq Require Import Base.Bytes Base.Err Codec.Varint Codec.Hybrid
-  Impl.CVarint Impl.CBitpack Impl.CRle Impl.CDelta Impl.PyPack Proofs.SafetyProofs.
+From Pq Require Import Base.Bytes Base.Err Base.ListX Codec.Varint Codec.Hybrid
+  Impl.CVarint Impl.CBitpack Impl.CRle Impl.CHybrid Impl.CDelta Impl.PyPack Proofs.SafetyProofs Proofs.CHybridProofs.
 Import ListNotations.
 Open Scope N_scope.
 
@@ -36,8 +36,15 @@ Theorem C12_safe_partial :
   (forall w g input,
      0 < w <= 28 -> g < 2 ^ 28 -> bytes_ok input -> g * w <= N.of_nat (length input) ->
      exists vals rest k, c_delta_read_bitpacked input w (8 * g) = Ok (vals, rest, k) /\
-                         k <= N.of_nat (length input) /\ length vals = N.to_nat (8 * g)).
-Proof. exact (conj read_bitpacked_safe (conj read_rle_safe (conj varint_safe delta_read_bitpacked_safe))). Qed.
+                         k <= N.of_nat (length input) /\ length vals = N.to_nat (8 * g)) /\
+  (* whole hybrid streams (definition/repetition levels, dictionary indices) *)
+  (forall w isz cap rs rest,
+     isz = 1 \/ isz = 4 -> Forall (irun_ok w isz) rs -> rs <> [] -> bytes_ok rest ->
+     exists d, c_read_hybrid (hyb_enc w rs ++ rest) w (lenN (hyb_enc w rs)) cap isz = Ok d /\
+               d_written d <= cap /\ d_used d <= lenN (hyb_enc w rs ++ rest)).
+Proof.
+  exact (conj read_bitpacked_safe (conj read_rle_safe (conj varint_safe (conj delta_read_bitpacked_safe hybrid_safe)))).
+Qed.
 Print Assumptions C12_safe_partial.
 
 (* ---- refuted: well-formed inputs on which the model of the compiled code leaves its buffers ---- *)
